@@ -12,7 +12,7 @@ PARAMS = ["k", "k_2", "O", "Q", "I", "alpha9"]        # 'I', 'O', 'Q', 'N', 'E',
 UNDERSCORE_PARAMS = ["_k", "_alpha9"]                 # spelled with a leading underscore in the formula
 RULE = ("random expression trees of depth <= 5 over + - * / ^ exp log abs Heaviside Max Min, numbers, species, parameters (incl. names colliding with sympy constants and "
         "leading-underscore spellings), t, volume; printed to strings; compiled as general propensity / assignment rule / parse_expression; evaluated at 3 finite points "
-        "with and without volume; malformed stream: unknown names, unsupported functions, unbalanced parentheses; non-trivial = depth >= 3 and a colliding or underscore name")
+        "with and without volume; malformed stream: unknown names, unsupported functions, unbalanced parentheses, constant sub-expressions without a real value; non-trivial = depth >= 3 and a colliding or underscore name")
 TRUSTED = ["hand models coq/Model/Term.v, Sympy.v tied by correspondence", "sympy's parser and automatic simplification are outside the model (sampled)",
            "values passing through ** compared with relative tolerance 1e-12 (Cython's complex pow)"]
 ASSUMPTIONS = ["Heaviside arguments kept >= 1e-3 away from 0; only finite points are compared", "oracle tolerance 1e-9 relative"]
@@ -146,9 +146,12 @@ def gen_cases(seed, tier):
         pts = [{"env": dict({n_: rng.choice([0.25, 1.0, 2.0, 3.5, 6.0]) for n_ in used}, t=0.5), "V": 2.0} for _ in range(2)]
         cases.append({"kind": "roles", "tree": tr, "string": to_string(tr), "builds": builds, "points": pts, "via": "propensity"})
     for _ in range(40 if tier == "quick" else 400):
-        bad = rng.choice(["unknown", "function", "unbalanced", "unknown_under"])
+        bad = rng.choice(["unknown", "function", "unbalanced", "unknown_under", "nonreal_pow", "nonreal_log", "nonreal_max"])
         base = to_string(gen_tree(rng, 2))
-        s = {"unknown": base + " + zz_unknown", "function": "sin(A + 1.5) + " + base, "unbalanced": "(" + base, "unknown_under": base + " + 3*_nosuch"}[bad]
+        # a constant sub-expression without a real value has no meaning as a rate: it must be rejected, not quietly replaced by a number
+        # (seeded change S4_C02: non-real constants became 0)
+        s = {"unknown": base + " + zz_unknown", "function": "sin(A + 1.5) + " + base, "unbalanced": "(" + base, "unknown_under": base + " + 3*_nosuch",
+             "nonreal_pow": base + " + (0.5 - 4.5)^0.5", "nonreal_log": "log(-1.5) + " + base, "nonreal_max": "Max(A, exp((-4.0)^0.5))"}[bad]
         cases.append({"kind": "malformed", "string": s, "bad": bad, "via": rng.choice(["propensity", "rule", "parse"])})
     return cases
 
